@@ -21,7 +21,7 @@ logging.disable(logging.CRITICAL)
 
 import numpy as np  # noqa: E402
 
-from c14_fake import make_results, f2h, exc_info  # noqa: E402
+from c14_fake import make_results, f2h, exc_info, time_limit  # noqa: E402
 import biogeme.results as res  # noqa: E402
 
 
@@ -128,7 +128,11 @@ def main():
         d = tempfile.mkdtemp(dir=root)
         os.chdir(d)
         try:
-            resl.append(fn(c))
+            try:
+                with time_limit(60):
+                    resl.append(fn(c))
+            except TimeoutError as e:
+                resl.append({'ok': False, 'exc': 'TimeoutError', 'msg': str(e)})
         finally:
             os.chdir(root)
             shutil.rmtree(d, ignore_errors=True)
